@@ -1,8 +1,8 @@
 // Kani harness C for C10: lsp::to_proto::{position,range} and lsp::from_proto::{position,range}
 // are exact pass-throughs of LineIndex::{pos_to_line_col, line_col_to_pos} (which harnesses
 // A/B in harness/ide/line_index_h.rs decide against the reference).  The two LineIndex
-// methods are replaced by recorders returning arbitrary values; the LineIndex itself is never
-// touched (reference obtained from a dangling aligned pointer, never dereferenced).
+// methods are replaced by recorders returning arbitrary values; the LineIndex passed is the
+// index of the empty text and is never read.
 #![allow(dead_code, unused_imports, static_mut_refs)]
 
 use async_lsp::lsp_types;
@@ -38,7 +38,8 @@ fn stub_line_col_to_pos(_li: &LineIndex, line: usize, col: u32) -> TextSize {
 }
 
 fn fake_index() -> &'static LineIndex {
-    unsafe { &*std::ptr::NonNull::<LineIndex>::dangling().as_ptr() }
+    // a real (empty) index; its methods are stubbed, so its content is never read
+    Box::leak(Box::new(LineIndex::new("")))
 }
 
 #[kani::proof]
